@@ -186,6 +186,14 @@ fn gen_taxa(rng: &mut Rng, n: usize) -> Vec<String> {
             *x = format!("sp|{}:{}(x)", i, x);
         }
     }
+    // control characters that are NOT white space (NUL, SOH, ESC, DEL, C1 controls other than NEL) are ordinary characters of a
+    // label: "names contain no whitespace" covers them
+    if rng.chance(1, 6) {
+        for (i, x) in v.iter_mut().enumerate() {
+            let c = ['\u{0}', '\u{1}', '\u{1b}', '\u{7f}', '\u{80}', '\u{9f}', '\u{200b}', '\u{feff}'][(i + rng.below(8)) % 8];
+            *x = match i % 3 { 0 => format!("{x}{c}"), 1 => format!("{c}{x}"), _ => format!("t{c}{x}") };
+        }
+    }
     v
 }
 
